@@ -30,7 +30,7 @@ import (
 )
 
 // MaxTasks is the maximum number of simulator tasks in one run.
-const MaxTasks = 2048
+const MaxTasks = 8192
 
 // StreamCap is the capacity of one decision stream.
 const StreamCap = 1 << 15
@@ -547,7 +547,7 @@ func wake(addr uintptr) {
 // taken whenever the model grants the lock, so the race detector sees the real
 // acquire/release edges.
 
-const maxRW = 64
+const maxRW = 1024
 
 var (
 	rwAddr    [maxRW]uintptr
@@ -567,7 +567,7 @@ func rwEntry(m *sync.RWMutex) int32 {
 		}
 	}
 	if nRW >= maxRW {
-		abort("too-many-rwmutexes")
+		abort("unmodelled-too-many-rwmutexes")
 	}
 	i := nRW
 	nRW++
@@ -657,7 +657,7 @@ func WUnlock(m *sync.RWMutex) {
 // blocks; the real primitive is operated as well, so the race detector sees the
 // real happens-before edges (Done -> Wait, Do -> later Do).
 
-const maxWG = 64
+const maxWG = 4096
 
 var (
 	wgAddr  [maxWG]uintptr
@@ -679,7 +679,7 @@ func wgEntry(w *sync.WaitGroup) int32 {
 		}
 	}
 	if nWG >= maxWG {
-		abort("too-many-waitgroups")
+		abort("unmodelled-too-many-waitgroups")
 	}
 	i := nWG
 	nWG++
@@ -739,7 +739,7 @@ func onceEntry(o *sync.Once) int32 {
 		}
 	}
 	if nOnce >= maxWG {
-		abort("too-many-onces")
+		abort("unmodelled-too-many-onces")
 	}
 	i := nOnce
 	nOnce++
@@ -900,7 +900,9 @@ func Go(fn func()) {
 		return
 	}
 	if ntasks >= MaxTasks {
-		abort("too-many-tasks")
+		// a limit of the model, not a verdict: the check repeats itself with
+		// native goroutines
+		abort("unmodelled-too-many-goroutines")
 	}
 	i := ntasks
 	tfn[i] = fn
@@ -1016,6 +1018,9 @@ type TaskResult struct {
 	Stack string
 	// Spawned: the task is a goroutine started by the code under test.
 	Spawned bool
+	// Group is the index of the caller task whose call (transitively) started
+	// this task (its own index for a caller task).
+	Group int32
 }
 
 // RunTasks runs fns as simulator tasks under the loaded tape and returns when
@@ -1078,7 +1083,7 @@ func getDone(i int32) chan struct{} { return tdone[i] }
 
 //go:norace
 func getResult(i int32) TaskResult {
-	return TaskResult{Panic: tpanic[i], Stack: tstack[i], Spawned: tgroup[i] != i}
+	return TaskResult{Panic: tpanic[i], Stack: tstack[i], Spawned: tgroup[i] != i, Group: tgroup[i]}
 }
 
 //go:norace
